@@ -27,10 +27,17 @@ TOther(r) == [k |-> "other", r |-> r]
 
 IsNum(t) == t.k \in {"int", "float"}
 IsSeqT(t) == t.k \in {"list", "tuple"}
+(* instances of subclasses of the JSON types (IntEnum, OrderedDict, str subclasses ...) *)
+IsSubT(t) == t.k \in {"intS", "floatS", "strS", "listS", "tupleS", "dictS"}
+Base(t) == CASE t.k = "intS" -> TInt(t.n) [] t.k = "floatS" -> TFloat(t.n, t.r) [] t.k = "strS" -> TStr(t.s)
+             [] t.k = "listS" -> TList(t.xs) [] t.k = "tupleS" -> TTuple(t.xs) [] t.k = "dictS" -> TDict(t.kv)
+             [] OTHER -> t
 
 (* json.dumps' stringification of a dictionary key *)
+RECURSIVE KeyStr(_)
 KeyStr(t) ==
-  CASE t.k = "str" -> t.s
+  CASE IsSubT(t) -> KeyStr(Base(t))
+    [] t.k = "str" -> t.s
     [] t.k = "bool" -> IF t.b THEN "true" ELSE "false"
     [] t.k = "int" -> t.n
     [] t.k = "float" -> (IF t.n = "inf" THEN "Infinity"
@@ -39,11 +46,12 @@ KeyStr(t) ==
     [] t.k = "none" -> "null"
     [] OTHER -> "?"
 
-IsKeyT(t) == t.k \in {"str", "bool", "int", "float", "none"}
+IsKeyT(t) == t.k \in {"str", "bool", "int", "float", "none", "strS", "intS", "floatS"}
 
 RECURSIVE IsJson(_)
 IsJson(t) ==
-  CASE t.k \in {"none", "bool", "int", "str"} -> TRUE
+  CASE IsSubT(t) -> IsJson(Base(t))
+    [] t.k \in {"none", "bool", "int", "str"} -> TRUE
     [] t.k = "float" -> t.n # "nan"
     [] IsSeqT(t) -> \A i \in DOMAIN t.xs : IsJson(t.xs[i])
     [] t.k = "dict" -> \A i \in DOMAIN t.kv : IsKeyT(t.kv[i][1]) /\ IsJson(t.kv[i][2])
@@ -65,7 +73,8 @@ SanKV(kv, i, acc) ==
 
 (* sanitize = json.loads(json.dumps(v)) *)
 San(t) ==
-  CASE IsSeqT(t) -> TList([i \in DOMAIN t.xs |-> San(t.xs[i])])
+  CASE IsSubT(t) -> San(Base(t))
+    [] IsSeqT(t) -> TList([i \in DOMAIN t.xs |-> San(t.xs[i])])
     [] t.k = "dict" -> TDict(SanKV(t.kv, 1, <<>>))
     [] OTHER -> t
 
